@@ -18,6 +18,8 @@ pub fn lines() -> Vec<Vec<u8>> {
     add("CONTENT-LENGTH:\t4294967295 ");
     add("Content-Length: 4294967296");
     add("Content-Length: -1");
+    add("Content-Length: -0");
+    add("Content-Length: -000");
     add("Content-Length: 1x");
     add("Content-Length:");
     add("Content-Length\u{a0}:\u{3000}12\u{a0}");
@@ -367,6 +369,42 @@ pub fn run(thorough: bool) -> Vec<Part> {
         |j| format!("padding sweep {}", j),
     );
     t.record(&mut part, "name-and-value-padding");
+    // every byte value in place of the '-' of the hyphenated names (and of one letter): anything
+    // but the exact name is some other field (custom entry if UTF-8, fatal otherwise)
+    {
+        let mut t = crate::par::Tally::default();
+        for (name, value) in [("Content-Length", "7"), ("Content-Type", "text/plain"), ("Transfer-Encoding", "chunked"), ("Accept-Encoding", "identity;q=0"), ("Expect", "100-continue"), ("Accept", "application/json")] {
+            for pos in 0..name.len() {
+                for b in 0..=255u8 {
+                    let mut line = name.as_bytes().to_vec();
+                    if line[pos].eq_ignore_ascii_case(&b) {
+                        continue;
+                    }
+                    line[pos] = b;
+                    if b == b':' {
+                        continue;
+                    }
+                    line.extend_from_slice(b": ");
+                    line.extend_from_slice(value.as_bytes());
+                    let mut h = Headers::default();
+                    let r = h.parse_header_line(&line);
+                    let v = sh::view(&h);
+                    let mut s = SpecHeaders::default();
+                    let want = s.apply_line(&line);
+                    t.evals += 1;
+                    t.nontrivial += 1;
+                    if want == Verdict::Unjudged {
+                        continue;
+                    }
+                    if !same_class(class_of(&r), want) || (matches!(want, Verdict::Applied | Verdict::Ignored) && v != s) {
+                        t.violate("name-byte-substitution", format!("header line {:?}: implementation {:?} with headers {:?}, the rules say {:?} with {:?}", util::show(&line), r, v, want, s), json!({"engine": "c15block", "block": util::hex(&[&line[..], b"\r\n\r\n"].concat())}));
+                    }
+                }
+            }
+        }
+        t.sample(json!({"substitution": "every byte value at every position of 6 recognised names"}));
+        t.record(&mut part, "name-byte-substitutions");
+    }
     // (c) blocks
     let n_full = if thorough { 5u32 } else { 3 };
     let a = all.len() as u64;
